@@ -298,9 +298,15 @@ impl<R: Round, const B: Word> FBig<R, B> {
     #[allow(non_upper_case_globals)]
     pub fn with_base<const NewB: Word>(self) -> Rounded<FBig<R, NewB>> {
         // if self.context.precision is zero, then precision is also zero
-        let precision =
-            Repr::<B>::BASE.pow(self.context.precision).log2_bounds().0 / NewB.log2_bounds().1;
-        self.with_base_and_precision(precision as usize)
+        let limit = Repr::<B>::BASE.pow(self.context.precision);
+        let mut precision = (limit.log2_bounds().0 / NewB.log2_bounds().1) as usize;
+        // the estimate is a lower bound: it falls short when NewB ^ (precision + 1) is (almost) the limit itself
+        if self.context.precision > 0 {
+            while Repr::<NewB>::BASE.pow(precision + 1) <= limit {
+                precision += 1;
+            }
+        }
+        self.with_base_and_precision(precision)
     }
 
     /// Explicitly change the base of the float number with given precision (under the new base).
